@@ -266,6 +266,18 @@ func minU(a, b uint64) uint64 {
 	return b
 }
 
+// straddle(d): deneb rules, clock interval [last slot of epoch e+d-1, first slot of epoch e+d] for data of epoch e.
+func straddle(d uint64) func(k *kvs) {
+	return func(k *kvs) {
+		spe := uint64(mustCtx(k).spec.SLOTS_PER_EPOCH)
+		e := k.u("slot") / spe
+		if e > 1<<40 {
+			return
+		}
+		k.set("fork", "deneb").setU("denebepoch", 0).setU("min", (e+d)*spe-1).setU("max", (e+d)*spe)
+	}
+}
+
 func windowAlts() []mutation {
 	w := func(name string, dmin, dmax int64) mutation {
 		return m("window:"+name, rel("min", "slot", dmin), rel("max", "slot", dmax))
@@ -414,7 +426,24 @@ func attFamily(o hreg.Opts) *family {
 			m("fork=deneb,window+33", set("fork", "deneb"), setU("denebepoch", 0), rel("min", "slot", 33), rel("max", "slot", 33)),
 			m("fork=deneb,window+40", set("fork", "deneb"), setU("denebepoch", 0), rel("min", "slot", 40), rel("max", "slot", 40)),
 			m("fork=deneb,window+63", set("fork", "deneb"), setU("denebepoch", 0), rel("min", "slot", 63), rel("max", "slot", 63)),
-			m("fork=deneb,window+64", set("fork", "deneb"), setU("denebepoch", 0), rel("min", "slot", 64), rel("max", "slot", 64))}},
+			m("fork=deneb,window+64", set("fork", "deneb"), setU("denebepoch", 0), rel("min", "slot", 64), rel("max", "slot", 64)),
+			// the clock's disparity interval straddles an epoch boundary: SlotAfter(-disparity) is the last slot of epoch N,
+			// SlotAfter(+disparity) the first slot of epoch N+1
+			m("deneb,straddle:previous-epoch-by-early-end", straddle(2)), // data epoch N-1: valid only w.r.t. the early end
+			m("deneb,straddle:current-epoch-by-early-end", straddle(1)),  // data epoch N: current by the early end, previous by the late end
+			m("deneb,straddle:two-epochs-old", straddle(3)),              // data epoch N-2: IGNORE
+			// data in the first slot of epoch N+1 while the early end is still in epoch N: valid only w.r.t. the late end
+			m("deneb,straddle:current-epoch-by-late-end", func(k *kvs) {
+				spe := uint64(mustCtx(k).spec.SLOTS_PER_EPOCH)
+				k.set("fork", "deneb").setU("denebepoch", 0)
+				if sl := k.u("slot"); sl%spe == 0 && sl > 0 {
+					k.setU("min", sl-1).setU("max", sl)
+				}
+			}),
+			// pre-deneb analogue: the two ends of the interval lie on either side of the edge of the 32-slot range
+			m("phase0,straddle:range-edge", rel("min", "slot", 32), rel("max", "slot", 33)),
+			m("phase0,straddle:past-range-edge", rel("min", "slot", 33), rel("max", "slot", 34)),
+			m("phase0,straddle:future-edge", rel("min", "slot", -1), rel("max", "slot", 0))}},
 	}, chainAlts(true)...)
 	return f
 }
@@ -581,7 +610,24 @@ func aggFamily(o hreg.Opts) *family {
 			m("fork=deneb,window+33", set("fork", "deneb"), setU("denebepoch", 0), rel("min", "slot", 33), rel("max", "slot", 33)),
 			m("fork=deneb,window+40", set("fork", "deneb"), setU("denebepoch", 0), rel("min", "slot", 40), rel("max", "slot", 40)),
 			m("fork=deneb,window+63", set("fork", "deneb"), setU("denebepoch", 0), rel("min", "slot", 63), rel("max", "slot", 63)),
-			m("fork=deneb,window+64", set("fork", "deneb"), setU("denebepoch", 0), rel("min", "slot", 64), rel("max", "slot", 64))}},
+			m("fork=deneb,window+64", set("fork", "deneb"), setU("denebepoch", 0), rel("min", "slot", 64), rel("max", "slot", 64)),
+			// the clock's disparity interval straddles an epoch boundary: SlotAfter(-disparity) is the last slot of epoch N,
+			// SlotAfter(+disparity) the first slot of epoch N+1
+			m("deneb,straddle:previous-epoch-by-early-end", straddle(2)), // data epoch N-1: valid only w.r.t. the early end
+			m("deneb,straddle:current-epoch-by-early-end", straddle(1)),  // data epoch N: current by the early end, previous by the late end
+			m("deneb,straddle:two-epochs-old", straddle(3)),              // data epoch N-2: IGNORE
+			// data in the first slot of epoch N+1 while the early end is still in epoch N: valid only w.r.t. the late end
+			m("deneb,straddle:current-epoch-by-late-end", func(k *kvs) {
+				spe := uint64(mustCtx(k).spec.SLOTS_PER_EPOCH)
+				k.set("fork", "deneb").setU("denebepoch", 0)
+				if sl := k.u("slot"); sl%spe == 0 && sl > 0 {
+					k.setU("min", sl-1).setU("max", sl)
+				}
+			}),
+			// pre-deneb analogue: the two ends of the interval lie on either side of the edge of the 32-slot range
+			m("phase0,straddle:range-edge", rel("min", "slot", 32), rel("max", "slot", 33)),
+			m("phase0,straddle:past-range-edge", rel("min", "slot", 33), rel("max", "slot", 34)),
+			m("phase0,straddle:future-edge", rel("min", "slot", -1), rel("max", "slot", 0))}},
 	}, chainAlts(true)...)
 	return f
 }
